@@ -1,4 +1,5 @@
 import ArroyProofs.AuditCmd
 import ArroyProofs.Properties.C02
 import ArroyProofs.Properties.Reachable
+import ArroyProofs.Properties.C02History
 #audit Arroy.C02
